@@ -142,7 +142,9 @@ Definition ex_streams : list stream :=
     mk_stream (ex_str 3 116) [] [];
     mk_stream (ex_str 2 117) [] [ ex_ev 2 1 false ] ].
 Example C42_example :
-  dict_ok 300 ex_dict /\ Forall (stream_ok (map k_ilen ex_dict) 300) ex_streams /  length (encode 300 ex_alloc ex_dict ex_streams) = 8%nat /  decode 8 (fun o => lookup o (encode 300 ex_alloc ex_dict ex_streams))
+  dict_ok 300 ex_dict /\ Forall (stream_ok (map k_ilen ex_dict) 300) ex_streams /\
+  length (encode 300 ex_alloc ex_dict ex_streams) = 8%nat /\
+  decode 8 (fun o => lookup o (encode 300 ex_alloc ex_dict ex_streams))
          (ex_alloc 0 0) 2 (ex_alloc 1 0) 2 = Some (profile_view ex_alloc ex_dict ex_streams).
 Proof.
   repeat apply conj.
